@@ -9,6 +9,7 @@ import (
 	"runtime"
 	"strconv"
 	"sync"
+	"sync/atomic"
 	"time"
 )
 
@@ -56,6 +57,7 @@ type Controller struct {
 	// new logical thread (a "job"); adopted threads are announced on Arrivals.
 	Adopt    func(point int, obj uintptr) bool
 	Arrivals chan *Thread
+	Adopted  int64 // number of jobs adopted so far (atomic)
 }
 
 func NewController() *Controller {
@@ -117,6 +119,7 @@ func (c *Controller) Hook(point int, obj uintptr) {
 		c.mu.Lock()
 		c.byGoid[g] = t
 		c.mu.Unlock()
+		atomic.AddInt64(&c.Adopted, 1)
 		c.Arrivals <- t
 		<-t.resume
 		return
